@@ -406,6 +406,7 @@ func run(c *runner.Ctx) {
 		lateRegistration(c, d)
 		sharedRuleMap(c, d)
 		blanksInTags(c, d)
+		rulelessNested(c, d)
 	}
 }
 
@@ -598,6 +599,100 @@ func blanksInTags(c *runner.Ctx, d *deleg) {
 			}
 		}
 	}
+}
+
+// N7 has rules under tag a only; N8 reaches it as a nested object under both tags. What the cache keeps about N7 for
+// tag b (a type without any rule there) must not stand in the way of a later call that brings rules for it.
+type N7 struct {
+	F string `a:"to=1~2|a-F7"`
+	G int
+}
+
+type N8 struct {
+	N *N7    `a:"exist" b:"exist"`
+	L []N7   `a:"exist" b:"exist"`
+	F string `a:"required|a-F8" b:"required|b-F8"`
+}
+
+func rulelessNested(c *runner.Ctx, d *deleg) {
+	c.Space(c.Mode + ":type-without-rules-under-one-tag-met-nested-first")
+	type nc struct {
+		outer    bool // N8 (true) or N7 alone
+		tag      string
+		override int // 0 none, 1 Struct-style untargeted rule set, 2 rule set targeted at N7
+	}
+	var all []nc
+	for _, outer := range []bool{true, false} {
+		for _, tag := range []string{"a", "b"} {
+			for ov := 0; ov < 3; ov++ {
+				all = append(all, nc{outer, tag, ov})
+			}
+		}
+	}
+	rm := map[string]string{"F": "eq=9|ovr-F", "G": "ge=5|ovr-G"}
+	mkVal := func(b nc) interface{} {
+		if b.outer {
+			return &N8{N: &N7{F: "abc", G: 1}, L: []N7{{F: "abcd", G: 2}}, F: ""}
+		}
+		return &N7{F: "abc", G: 1}
+	}
+	runOne := func(b nc) (string, string) {
+		v := mkVal(b)
+		o := walk.Opts{Tag: b.tag}
+		var err error
+		switch b.override {
+		case 0:
+			err = valid.ValidateStruct(v, b.tag)
+		case 1:
+			o.Unscoped = rm
+			err = valid.StructForFn(v, toRM(rm), b.tag)
+		case 2:
+			o.Typed = map[reflect.Type]map[string]string{reflect.TypeOf(N7{}): rm}
+			err = valid.NewVStruct(b.tag).SetRule(toRM(rm), &N7{}).Valid(v)
+		}
+		got := ""
+		if err != nil {
+			got = err.Error()
+		}
+		return got, walk.Struct(v, o).Error()
+	}
+	for _, cf := range cfgs {
+		for i := range all {
+			for j := range all {
+				for k := range all {
+					if !c.Take() {
+						continue
+					}
+					d.inner = cf.mk()
+					seq := []nc{all[i], all[j], all[k]}
+					for step, b := range seq {
+						var got, want string
+						pan, msg, site := runner.Guard(func() { got, want = runOne(b) })
+						det := map[string]interface{}{"config": cf.name, "history (outermost is N8, tag, override kind)": fmt.Sprint(seq[:step+1]), "expected": want, "actual": got}
+						if pan {
+							det["panic"] = msg
+							c.Violation("panic@"+site, det)
+							break
+						}
+						if got != want {
+							c.Violation("ruleless-nested-type/call-rules-ignored-or-misapplied", det)
+							break
+						}
+					}
+					c.Done(true, 3)
+					c.Outcome("ok")
+				}
+			}
+		}
+	}
+}
+
+func toRM(m map[string]string) valid.RM {
+	r := valid.RM{}
+	for k, v := range m {
+		r[k] = v
+	}
+	return r
 }
 
 // explainOnly keeps the explanation parts (the type name of an unnamed struct is long and holds separators).
